@@ -12,6 +12,10 @@
 #include "../lie_groups.hpp"
 #include "common.hpp"
 
+#ifdef PETTNI_SMOOTH_VERIF
+struct smooth_verif_access;  // verification hook: lets a harness construct arbitrary representation-invariant states
+#endif
+
 SMOOTH_BEGIN_NAMESPACE
 
 /**
@@ -242,6 +246,10 @@ public:
   [[nodiscard]] Spline crop(double ta, double tb = std::numeric_limits<double>::infinity(), bool localize = true) const;
 
 private:
+#ifdef PETTNI_SMOOTH_VERIF
+  friend struct ::smooth_verif_access;
+#endif
+
   std::size_t find_idx(double t) const;
 
   // segment i is defined by
